@@ -1,0 +1,10 @@
+//go:build verif
+
+package protocol
+
+// VerifRebaseGlobals rebases the process-wide replay caches onto the current
+// (virtual) clock. It only exists in builds with the "verif" tag.
+func VerifRebaseGlobals() {
+	streamReplayCache.VerifRebase()
+	packetReplayCache.VerifRebase()
+}
